@@ -85,7 +85,13 @@ def clause_decision(prog, rep):
                 calls += og.calls
                 fields |= og.fields
             has_admins = any(c.name == "contains" for c in calls) and "admins" in fields
-            cur_group = any(c.name in ("from_group", "from_group_context") and last_seg(c.self_adt) == "NostrGroupDataExtension" for c in calls)
+            # the admin set must be that of the *current* epoch: decoded from the live MlsGroup, never from the staged
+            # commit's (post-commit) group context, which already contains the commit's own extension proposal
+            from_staged = any(c.name == "group_context" and last_seg(c.self_adt) == "StagedCommit" for c in calls)
+            cur_group = not from_staged and (
+                any(c.name == "from_group" and last_seg(c.self_adt) == "NostrGroupDataExtension" for c in calls)
+                or (any(c.name == "from_group_context" and last_seg(c.self_adt) == "NostrGroupDataExtension" for c in calls)
+                    and any(c.name in ("export_group_context", "group_context") and last_seg(c.self_adt) == "MlsGroup" for c in calls)))
             sender = any(c.name == "member_at" and last_seg(c.self_adt) == "MlsGroup" for c in calls) and \
                 any(c.name == "identity" and last_seg(c.self_adt) == "BasicCredential" for c in calls)
             rep.check(has_admins and cur_group and sender, "guards-before-merge", "CommitFromNonAdmin/decision",
